@@ -24,6 +24,8 @@ type IncOpts struct {
 	Fault     *FaultSpec
 	NoDur     bool
 	MinDur    int64 // lower bound for command durations (coarse-clock runs)
+	TZOffset  int   // local time zone of this incarnation (seconds east of UTC)
+	GapNS     int64 // wall-clock time between the end of this incarnation and the next (default 1h)
 	OnStep    func(inc *Inc)
 }
 
@@ -84,8 +86,15 @@ func RunInc(w *WF, t *simrt.Tape, root *simrt.Inode, nextIno int, o IncOpts) *In
 		cfg.Env["SCIPIPE_BUFSIZE"] = fmt.Sprint(w.Bufsize)
 	}
 	cfg.Epoch = baseEpoch + incEpoch
+	cfg.TZOffset = o.TZOffset
 	s := simrt.NewSim(t, cfg)
-	defer func() { incEpoch += s.SimTimeNS() + 3600e9 }()
+	defer func() {
+		gap := o.GapNS
+		if gap == 0 {
+			gap = 3600e9
+		}
+		incEpoch += s.SimTimeNS() + gap
+	}()
 	inc := &Inc{W: w, Sim: s, RT: &Runtime{Recorded: map[string][]string{}}}
 	if root != nil {
 		s.FS.Adopt(root.Clone(), nextIno)
